@@ -407,9 +407,12 @@ def main():
         light = [o for o in group if getattr(o, "mem_gb", 0) < 4]
         heavy = [o for o in group if getattr(o, "mem_gb", 0) >= 4]
         res, build_err, wall = run_kani_group(features, light, timeout_s) if light else ({}, None, 0.0)
-        if heavy and build_err is None:
-            jobs = max(1, min(JOBS, 44 // max(o.mem_gb for o in heavy)))
-            res2, build_err, wall2 = run_kani_group(features, heavy, timeout_s, jobs=jobs)
+        # one pass per memory class, each with as many parallel CBMC processes as fit in ~44 GB
+        for mem in sorted({o.mem_gb for o in heavy}):
+            if build_err is not None:
+                break
+            cls = [o for o in heavy if o.mem_gb == mem]
+            res2, build_err, wall2 = run_kani_group(features, cls, timeout_s, jobs=max(1, min(JOBS, 44 // mem)))
             res.update(res2)
             wall += wall2
         prune_build(features)
